@@ -763,6 +763,8 @@ def rule_ged_zero(ctx: Ctx) -> None:
 
 
 def run(ctx: Ctx) -> None:
+    from .c13 import rule_rewrite_order
+    rule_rewrite_order(ctx)   # the normalisation this property relies on (unwrap_nodes expands every wrapper, in order)
     rule_ged_zero(ctx)
     from ..rules import memo as _memo
     _memo.rule_memo_sound(ctx, ['graphiq/utils/circuit_comparison.py'])
